@@ -812,6 +812,10 @@ structure BodyIn where
   json : Option V
   form : Option (List (Str × List Str))
   parts : Option (List Part)
+  /-- what `yaml3.NewDecoder(body).Decode` makes of the text (first document; none = error) -/
+  yaml : Option V := none
+  /-- what `encoding/csv` makes of the text: the records (none = error) -/
+  csv : Option (List (List Str)) := none
   deriving Repr
 
 /-- outcome of a decoder -/
@@ -819,7 +823,7 @@ inductive Dec
   | err                 -- a ParseError / error
   | val (v : V)
   | panic               -- nil dereference (array property without `items` in the urlencoded pre-check)
-  | unmodelled          -- YAML / CSV / nested form decoders: outside this model (never generated)
+  | unmodelled          -- YAML / CSV / form decoders nested inside multipart parts: outside this model (never generated)
   deriving Repr
 
 /-- `JSONBodyDecoder`, `PlainBodyDecoder`, `FileBodyDecoder` on one piece of text -/
@@ -1179,12 +1183,24 @@ def decodeMultipart (reg : List (Str × DecK)) (s : RS) (parts : Option (List Pa
     | .inl (some vals) => .val (.obj (assemble vals (assemblyProps s)))
     | .inr _ => .unmodelled
 
+/-- `CsvBodyDecoder`: every record joined with "," and terminated by a newline, as one string -/
+def csvLine : List Str → Str
+  | [] => []
+  | [x] => x
+  | x :: y :: r => x ++ ',' :: csvLine (y :: r)
+
+def csvJoin : List (List Str) → Str
+  | [] => []
+  | r :: rs => csvLine r ++ '\n' :: csvJoin rs
+
 /-- `decodeBody`: the decoder is chosen by the *request's* Content-Type without parameters -/
 def decodeBody (reg : List (Str × DecK)) (ct : Str) (s : RS) (encs : List (Str × Enc)) (b : BodyIn) : Dec :=
   match lookup (base ct) reg with
   | none => .err                               -- "unsupported content type"
   | some .urlencoded => decodeForm s encs b.form
   | some .multipart => decodeMultipart reg s b.parts
+  | some .yaml => (match b.yaml with | some v => .val v | none => .err)
+  | some .csv => (match b.csv with | some recs => .val (.str (csvJoin recs)) | none => .err)
   | some k => decodeSimple k b.text b.json
 
 /-! ### `ValidateRequestBody` -/
@@ -1411,7 +1427,9 @@ def specDecode (reg : List (Str × DecK)) (ct : Str) (s : RS) (encs : List (Str 
     else none
   | some .multipart =>
     (match decodeMultipart reg s b.parts with | .val v => some v | _ => none)
-  | _ => none
+  | some .yaml => b.yaml                                    -- the (first) YAML document
+  | some .csv => b.csv.map fun recs => .str (csvJoin recs)  -- the library's reading: the normalised records as text
+  | none => none
 
 /-- **the property**: a request body is accepted iff … -/
 def Accept (reg : List (Str × DecK)) (rb : ReqBody) (ct : Str) (b : BodyIn) (exro : Bool) : Prop :=
